@@ -366,3 +366,129 @@ def replay_merge(d):
     if bad:
         return True, f"merge result {bad} (got, expected importer ++ imported)"
     return False, "merge concatenates every category"
+
+
+def replay_reflection(d):
+    """Real reflection() + encode/decode on the template tree with the concrete leaves of the counterexample."""
+    from fcp import serde
+    from fcp.reflection import get_reflection_schema
+
+    from .checks import reflection_checks as rc
+    from .fromfcp import schema_from_fcp
+
+    asg = {}
+    for k, v in d["assignment"].items():
+        if isinstance(v, dict) and "__float__" in v:
+            asg[k] = (v["__float__"], v["bits"])
+        else:
+            asg[k] = v
+    fcp = _fcp_text(rc.TEMPLATES[d["template"]])
+    rc.Patcher(asg=asg).patch(fcp)
+    rfcp = get_reflection_schema().unwrap()
+    rsch = schema_from_fcp(rfcp, top="Fcp")
+    T = ("struct", "Fcp")
+    try:
+        rec = fcp.reflection()
+    except Exception as e:
+        return True, f"reflection() raised {type(e).__name__}: {e}"
+    exp = rc.reference_record(fcp)
+    if not values_equal(rsch, T, rec, exp):
+        return True, f"reflection record differs from the declared schema: {_first_diff(rec, exp)}"
+    try:
+        dec = serde.decode(rfcp, "Fcp", serde.encode(rfcp, "Fcp", rec))
+    except Exception as e:
+        return True, f"serialising the reflection record raised {type(e).__name__}: {e}"
+    if not values_equal(rsch, T, rec, dec):
+        return True, f"decode(encode(record)) differs: {_first_diff(rec, dec)}"
+    return False, "reflection is faithful and lossless"
+
+
+def _first_diff(a, b, path=""):
+    if isinstance(a, dict) and isinstance(b, dict):
+        for k in list(a) + [k for k in b if k not in a]:
+            if k not in a or k not in b:
+                return f"{path}.{k}: key only on one side"
+            r = _first_diff(a[k], b[k], f"{path}.{k}")
+            if r:
+                return r
+        return None
+    if isinstance(a, list) and isinstance(b, list):
+        if len(a) != len(b):
+            return f"{path}: lengths {len(a)} vs {len(b)}"
+        for i, (x, y) in enumerate(zip(a, b)):
+            r = _first_diff(x, y, f"{path}[{i}]")
+            if r:
+                return r
+        return None
+    if a != b and not (a != a and b != b):
+        return f"{path}: {a!r} vs {b!r}"
+    return None
+
+
+def replay_gating(d):
+    """Stub plug-in with the concrete verdict table, real file system (temp dir), unstubbed fcp.codegen."""
+    import os
+    import shutil
+    import sys
+    import tempfile
+
+    from .common import VERIF
+    from .checks.gating_checks import SCHEMA, _snapshot
+
+    stubs = os.path.join(VERIF, "verif", "stubs")
+    if stubs not in sys.path:
+        sys.path.insert(0, stubs)
+    import fcp_vstub
+    from fcp.codegen import GeneratorManager
+    from fcp.verifier import make_general_verifier
+
+    fcp = _fcp_text(SCHEMA)
+    out = tempfile.mkdtemp(prefix="verif_c10_")
+    try:
+        open(os.path.join(out, "keep.txt"), "w").write("pre-existing")
+        recs = [{"type": t, "path": os.path.join(out, f"gen{i}.txt"), "contents": f"contents {i}"}
+                for i, t in enumerate(d["record_types"])]
+        table = d["verdicts"]
+        fcp_vstub.CONFIG.update({"checks": d["checks"], "records": recs, "calls": [],
+                                 "verdict": lambda ci, cat, k: table.get(f"{ci}/{k}", True)})
+        before = _snapshot(out)
+        try:
+            r = GeneratorManager(make_general_verifier()).generate("vstub", None, None, fcp, out)
+        except Exception as e:
+            return True, f"generate raised {type(e).__name__}: {e}"
+        after = _snapshot(out)
+        calls = fcp_vstub.CONFIG["calls"]
+        rejected = any(not table.get(f"{c[0]}/{c[1]}", True) for c in calls if c != "generate")
+        if rejected:
+            if after != before or "generate" in calls or not (hasattr(r, "is_err") and r.is_err()):
+                return True, f"a check rejected the schema but result={r!r}, directory changed={after != before}, generator ran={'generate' in calls}"
+            return False, "rejected: error returned, nothing written"
+        exp = dict(before)
+        for rec in recs:
+            if rec["type"] == "file":
+                exp[os.path.relpath(rec["path"], out)] = rec["contents"].encode()
+        if not (hasattr(r, "is_ok") and r.is_ok()) or after != exp:
+            return True, f"all checks passed but result={r!r}, files={sorted(after)} expected={sorted(exp)}"
+        return False, "accepted: exactly the returned file records were written"
+    finally:
+        shutil.rmtree(out, ignore_errors=True)
+
+
+def replay_gating_real(d):
+    from .checks.gating_checks import real_plugin_run
+    import json
+
+    p, before, after = real_plugin_run(d["generator"], d["schema_text"], d["expect_ok"])
+    try:
+        st = json.loads((p.stdout.strip().splitlines() or ["{}"])[-1])
+    except Exception:
+        st = {}
+    if not d["expect_ok"]:
+        if before != after:
+            return True, f"rejected schema but the output directory changed: {sorted(set(after) ^ set(before))[:4]}"
+        if st.get("ok"):
+            return True, "rejected schema but generate returned Ok"
+        return False, "rejected: nothing written"
+    if not st.get("ok"):
+        return True, f"well-formed schema but generate did not return Ok: {st} {p.stderr[-200:]}"
+    return False, "accepted"
